@@ -198,3 +198,25 @@ func VerifC06_Alias() {
 	vAssert("setcalled/called-without-cli", a.opt.Called("forced"))
 	vReach("compared")
 }
+
+// Called / CalledAs through the environment variable, for both bool texts.
+func VerifC06_EnvCalled() {
+	vNativeReset()
+	val := vBool("envtrue")
+	def := vBool("def")
+	txt := []string{"false", "FALSE", "False"}[vInt("spelling", 0, 2)]
+	if val {
+		txt = []string{"true", "TRUE", "tRuE"}[vInt("spelling", 0, 2)]
+	}
+	vSetenv("VERIF_C06_ENV", txt)
+	opt := New()
+	b := opt.Bool("name", def, opt.Alias("x"), opt.GetEnv("VERIF_C06_ENV"))
+	vPhase("run")
+	_, err := opt.Parse([]string{})
+	vAssert("env/no-error", err == nil)
+	vAssert("env/value", *b == val)
+	vAssert("env/called", opt.Called("name"))
+	vAssert("env/called-by-alias-name", opt.Called("x"))
+	vAssert("env/called-as", opt.CalledAs("name") == "VERIF_C06_ENV")
+	vReach("env")
+}
